@@ -380,7 +380,80 @@ def expand_c13(st, seed):
     return r
 
 
-EXPANDERS = dict(C03=expand_c03, C04=expand_c04, C05=expand_c05, C12=expand_c12, C13=expand_c13)
+def _grid(cols):
+    """tensor grid (indexing 'ij', first column slowest) of the columns of a (B, D) batch: list of rows"""
+    B = len(cols)
+    D = len(cols[0]) if cols else 0
+    rows = [[]]
+    for dd in range(D):
+        rows = [r + [cols[i][dd]] for r in rows for i in range(B)]
+    return rows
+
+
+def expand_c11l(st, seed):
+    """loss terms evaluated on a polynomial SPINN: jinns receives the batch COLUMNS, the oracle the tensor grid they span"""
+    rng = _rng(seed, st)
+    lk, dim, b, R, M, term = st["lkind"], st["dim"], st["b"], st["R"], st["M"], st["term"]
+    has_t = lk == "nonstatio"
+    d = dim + (1 if has_t else 0)
+    coef = [[[rng.randint(-2, 2) for _ in range(3)] for _ in range(R * M)] for _ in range(d)]
+    for dd in range(d):
+        for j in range(R * M):
+            if not any(coef[dd][j][1:]):
+                coef[dd][j][1] = rng.choice([-1, 1, 2])
+    r = base_record(rng, lk, dim, nout=M, npar=2, nres=1)
+    r.update(net="spinn", coef=coef, spR=R, spM=M, V=spinn_expand(coef, d, R, M))
+    r["R"] = []
+    r["sol"] = [1, M]
+    r["obsd"]["slice"] = [1, M]
+
+    def cols(n, time_first=has_t, lo=-2, hi=2):
+        out = []
+        while len(out) < n:
+            row = [rng.randint(0, 2) if (time_first and i == 0) else rng.randint(lo, hi) for i in range(d if time_first or not has_t else dim)]
+            out.append(row)
+        return out
+
+    inside_cols = cols(b)
+    r["cols_inside"] = inside_cols
+    if term == "ic":
+        xs = [row[1:] for row in inside_cols]
+        r["inside"] = [[0] + g for g in _grid(xs)]
+        r["ic"] = dict(on=True, t0=0, u0=[rpoly(rng, dim, 2, 2) for _ in range(M)])
+        r["w"]["ic"] = [rng.choice([1, 2])]
+    elif term == "norm":
+        ns = b if has_t else rng.choice([2, 4])
+        samp_cols = [[rng.randint(-2, 2) for _ in range(dim)] for _ in range(ns)]
+        r["cols_norm"] = samp_cols
+        r["norm"] = dict(on=True, samples=_grid(samp_cols), L=rng.choice([1, 2]))
+        r["inside"] = [[row[0]] + [0] * dim for row in inside_cols] if has_t else [[0] * dim]
+        r["w"]["norm"] = [rng.choice([1, 2])]
+    else:
+        nb = 1 if dim == 1 else b
+        r["inside"] = [[0] * d]
+        border_cols, border = [], []
+        times = [rng.randint(0, 2) for _ in range(nb)] if has_t else None
+        for f in range(2 * dim):
+            rows = []
+            for k in range(nb):
+                x = [rng.randint(-1, 1) for _ in range(dim)]
+                x[f // 2] = -2 if f % 2 == 0 else 2
+                rows.append(([times[k]] if has_t else []) + x)
+            border_cols.append(rows)
+            border.append(_grid(rows))
+        r["cols_border"] = border_cols
+        r["border"] = border
+        kind = term
+        comp = [1, 1] if (term == "neumann" or M == 1) else [1, M]
+        ncomp = comp[1] - comp[0] + 1
+        g = [[dict(c=0, e=[0] * d)] if st["gzero"] else rpoly(rng, d, 2, 1) + [dict(c=rng.choice([1, 2]), e=[0] * d)] for _ in range(ncomp)]
+        r["bnd"] = [dict(kind=kind, g=g, comp=comp) for _ in range(2 * dim)]
+        r["w"]["bnd"] = [rng.choice([1, 2])]
+    r["check"] = ["ic", "norm", "bnd", "sum"]
+    return r
+
+
+EXPANDERS = dict(C03=expand_c03, C04=expand_c04, C05=expand_c05, C12=expand_c12, C13=expand_c13, C11L=expand_c11l)
 
 
 def expand(struct, seed):
